@@ -194,6 +194,7 @@ func (q *Queue[T]) pop(i int) T {
 func (q *Queue[T]) pushUp(i int) int {
 	for i > 0 {
 		par := i / 2
+		par = verifParent(i, par)
 		if q.cmp(q.data[i], q.data[par]) >= 0 {
 			break
 		}
